@@ -31,9 +31,9 @@ type knownFinding struct {
 type mutant struct {
 	ID       string `json:"id"`
 	Property string `json:"property"`
-	Rule     string `json:"rule"`   // rule expected to report (prefix match), "" = any rule of the property
-	File     string `json:"file"`   // repo-relative
-	Find     string `json:"find"`   // must occur exactly once
+	Rule     string `json:"rule"` // rule expected to report (prefix match), "" = any rule of the property
+	File     string `json:"file"` // repo-relative
+	Find     string `json:"find"` // must occur exactly once
 	Replace  string `json:"replace"`
 	Expect   string `json:"expect"` // "violation" (default) | "pass"
 	Note     string `json:"note,omitempty"`
@@ -64,6 +64,7 @@ func main() {
 	goos := flag.String("goos", "linux", "GOOS")
 	goarch := flag.String("goarch", "amd64", "GOARCH")
 	cfgOnly := flag.Bool("cfgonly", false, "(internal) run the property's rules in one extra build configuration and print JSON")
+	matrix := flag.String("matrix", "", "apply a unified diff as an overlay and print, per property, the obligations that do not discharge")
 	genManifest := flag.Bool("genmanifest", false, "write MANIFEST.json from the registered rules")
 	dump := flag.String("dump", "", "debug: dump SSA of pkg:func (e.g. nsqd:(*Topic).put)")
 	flag.Parse()
@@ -97,6 +98,9 @@ func main() {
 	}
 	if *runMut != "" {
 		os.Exit(runMutantChild(*runMut, *repo, *verif))
+	}
+	if *matrix != "" {
+		os.Exit(runMatrix(*matrix, *repo, *verif))
 	}
 	if *explain != "" {
 		os.Exit(doExplain(*explain, *repo, *verif))
@@ -434,38 +438,9 @@ func runMutantChild(file, repo, verif string) int {
 	if m.ID == "" {
 		m.ID = strings.TrimSuffix(filepath.Base(file), ".json")
 	}
-	type edit struct{ File, Find, Replace string }
-	edits := []edit{}
-	if m.File != "" {
-		edits = append(edits, edit{m.File, m.Find, m.Replace})
-	}
-	for _, e := range m.Edits {
-		edits = append(edits, edit{e.File, e.Find, e.Replace})
-	}
-	overlay := map[string][]byte{}
-	if m.Patch != "" {
-		pb, err := os.ReadFile(filepath.Join(verif, m.Patch))
-		if err != nil {
-			return emit(mutantResult{ID: m.ID, Status: "invalid", Detail: err.Error()})
-		}
-		overlay, err = applyUnifiedDiff(repo, string(pb))
-		if err != nil {
-			return emit(mutantResult{ID: m.ID, Status: "stale", Detail: err.Error()})
-		}
-	}
-	for _, e := range edits {
-		abs := filepath.Join(repo, e.File)
-		src, ok := overlay[abs]
-		if !ok {
-			src, err = os.ReadFile(abs)
-			if err != nil {
-				return emit(mutantResult{ID: m.ID, Status: "stale", Detail: err.Error()})
-			}
-		}
-		if n := strings.Count(string(src), e.Find); n != 1 {
-			return emit(mutantResult{ID: m.ID, Status: "stale", Detail: fmt.Sprintf("find text occurs %d times in %s", n, e.File)})
-		}
-		overlay[abs] = []byte(strings.Replace(string(src), e.Find, e.Replace, 1))
+	overlay, status, detail := mutantOverlay(m, repo, verif)
+	if status != "" {
+		return emit(mutantResult{ID: m.ID, Status: status, Detail: detail})
 	}
 	p, err := an.Load(repo, "linux", "amd64", overlay)
 	if err != nil {
@@ -497,6 +472,91 @@ func runMutantChild(file, repo, verif string) int {
 		return emit(mutantResult{ID: m.ID, Status: "killed", By: other, Detail: "reported by a different rule than the one named"})
 	}
 	return emit(mutantResult{ID: m.ID, Status: "survived", Detail: "no rule of " + m.Property + " reported " + m.Note})
+}
+
+
+// mutantOverlay builds the file overlay a mutant describes (patch and/or find/replace edits).
+func mutantOverlay(m mutant, repo, verif string) (overlay map[string][]byte, status, detail string) {
+	type edit struct{ File, Find, Replace string }
+	edits := []edit{}
+	if m.File != "" {
+		edits = append(edits, edit{m.File, m.Find, m.Replace})
+	}
+	for _, e := range m.Edits {
+		edits = append(edits, edit{e.File, e.Find, e.Replace})
+	}
+	overlay = map[string][]byte{}
+	if m.Patch != "" {
+		pb, err := os.ReadFile(filepath.Join(verif, m.Patch))
+		if err != nil {
+			return nil, "invalid", err.Error()
+		}
+		overlay, err = applyUnifiedDiff(repo, string(pb))
+		if err != nil {
+			return nil, "stale", err.Error()
+		}
+	}
+	for _, e := range edits {
+		abs := filepath.Join(repo, e.File)
+		src, ok := overlay[abs]
+		if !ok {
+			var err error
+			src, err = os.ReadFile(abs)
+			if err != nil {
+				return nil, "stale", err.Error()
+			}
+		}
+		if n := strings.Count(string(src), e.Find); n != 1 {
+			return nil, "stale", fmt.Sprintf("find text occurs %d times in %s", n, e.File)
+		}
+		overlay[abs] = []byte(strings.Replace(string(src), e.Find, e.Replace, 1))
+	}
+	return overlay, "", ""
+}
+
+// runMatrix evaluates every property on /repo + patch (overlay) and prints {property: [keys]}.
+func runMatrix(patch, repo, verif string) int {
+	pb, err := os.ReadFile(patch)
+	if err != nil {
+		fmt.Fprintln(os.Stderr, err)
+		return 2
+	}
+	var overlay map[string][]byte
+	if strings.HasSuffix(patch, ".json") {
+		var m mutant
+		if err := json.Unmarshal(pb, &m); err != nil {
+			fmt.Fprintln(os.Stderr, err)
+			return 2
+		}
+		var st, detail string
+		overlay, st, detail = mutantOverlay(m, repo, verif)
+		if st != "" {
+			fmt.Fprintln(os.Stderr, st, detail)
+			return 2
+		}
+	} else {
+		overlay, err = applyUnifiedDiff(repo, string(pb))
+		if err != nil {
+			fmt.Fprintln(os.Stderr, err)
+			return 2
+		}
+	}
+	p, err := an.Load(repo, "linux", "amd64", overlay)
+	if err != nil {
+		fmt.Fprintln(os.Stderr, "does not load:", firstLine(err.Error()))
+		return 2
+	}
+	out := map[string][]string{}
+	for id := range rules.Props {
+		obs, _, _ := evaluate(p, id, false, loadKnown(verif))
+		for _, o := range obs {
+			if o.Verdict != an.Discharged && o.Known == "" {
+				out[id] = append(out[id], o.Key)
+			}
+		}
+	}
+	json.NewEncoder(os.Stdout).Encode(out)
+	return 0
 }
 
 // ---- evidence -------------------------------------------------------------------------------------
